@@ -92,6 +92,15 @@ def run(case):
         am = a.argmax()
         ams = a.argmax(sup) if sup is not None else a.argmax(None)
         out_support = _oann(tb, s)
+        if len(labels) >= 2:
+            # two labels that print alike (77 and '77'): each label's tracks are still merged on their own
+            b2 = a.rename_labels(mapping={labels[0]: 77, labels[1]: "77"})
+            s2 = b2.support(c) if case["collar"] else b2.support()
+            for lab in (77, "77"):
+                want_ = list(b2.label_timeline(lab).support(c))
+                assert list(s2.label_timeline(lab)) == want_, \
+                    "support(collar): label %r has %r, its own timeline support is %r" % (lab, list(s2.label_timeline(lab)), want_)
+            assert sorted(map(repr, s2.labels())) == sorted(map(repr, b2.labels()))
         from harness.annutil import assert_independent
         assert_independent(tb, s, a, "support")          # edits both, after everything else was observed
         return {"support": out_support, "durs": durs, "chart": [[nm(l), tb.u(d)] for l, d in chart],
